@@ -7,6 +7,8 @@ arguments, to the script on integers `tokenScriptI`, which for every configurati
 import GoZero.Extracted.C03
 import GoZero.C03.LuaTok
 import GoZero.C03.ProofsStore
+import GoZero.C03.TieSem
+import GoZero.C03.PropsPath
 namespace GoZero.C03.TieLua
 open GoZero.C03
 open GoZero.C03.LuaT
@@ -157,5 +159,15 @@ theorem tokenScriptI_agrees_with_Z (s : Store) (k1 k2 : String) (hk : k1 ≠ k2)
         · simp [hd] at hn1 ⊢; omega
         · simp [hd] at hn1 ⊢; omega
       · simp [find_put, hk]
+
+/-- **periodscript.lua in the tree is the model's `periodScript`** (round 5c; the file has been lexed by the extractor,
+parsed and interpreted in Lean since round 4 — `LuaSem.lean`, `TieSem.tie_periodLua_sem`): for every store, key and ALL
+integer arguments, running the current script text on `KEYS = [prefix+key]`, `ARGV = [quota, window]` gives exactly what
+the natural-number model of the period theorems gives on `quota.toNat`, `window.toNat` (what Redis makes of
+non-positive values). -/
+theorem tie_periodLua_model (s : Store) (key : String) (quota window : Int) :
+    Lua.runScript periodLuaToks [key] [quota, window] s
+      = some ((periodScript s key quota.toNat window.toNat).1, ((periodScript s key quota.toNat window.toNat).2 : Int)) := by
+  rw [TieSem.tie_periodLua_sem, PropsPath.periodScriptZ_is_periodScript]
 
 end GoZero.C03.TieLua
